@@ -167,6 +167,37 @@ def cases(draw, maxlen):
     return (sess, draw(histories(maxlen)))
 
 
+LONG_UNITS = [b'\x74', b'\x74', b'\x74\x6b', b'\x74\x8b', b'\x61', b'\x51\x75', b'\x51\x76\x87\x75', b'\x51\x6b\x6c\x75', b'\x51\x63\x61\x68', b'\x00\x63\x61\x67\x61\x68', b'\xab', b'\x74\x75', b'\x51\x51\x93\x75']
+
+
+@st.composite
+def long_cases(draw):
+    """sessions of several hundred operations (tapscript has no operation limit; legacy / v0 up to 201) walked by long runs of steps and rewinds: every
+    history vector far beyond 255 entries, rewinds over hundreds of operations, conditionals and code separators at positions beyond one byte"""
+    sv = draw(st.sampled_from([R.TAPSCRIPT, R.TAPSCRIPT, R.WITNESS_V0, R.BASE]))
+    # OP_DEPTH units make every position's stack / alt stack distinct (a restored-from-the-wrong-entry state is then visible)
+    units = [draw(st.sampled_from(LONG_UNITS)) for _ in range(draw(st.integers(1, 4)))]
+    nops = draw(st.sampled_from([260, 300, 520, 700])) if sv == R.TAPSCRIPT else draw(st.sampled_from([150, 199, 200]))
+    body = bytearray()
+    i = 0
+    while len(R.decode(bytes(body))) < nops and (sv == R.TAPSCRIPT or sum(1 for e in R.decode(bytes(body) + units[i % len(units)]) if e[0] > 0x60) <= 200):
+        body += units[i % len(units)]
+        i += 1
+    body += b'\x51'
+    total = len(R.decode(bytes(body)))
+    blocks = []
+    for _ in range(draw(st.integers(2, 6))):
+        blocks.append((draw(st.sampled_from(['s', 's', 'r'])), draw(st.sampled_from([1, 2, 5, 100, 200, 254, 255, 256, 257, 258, 300, 511, 512, 513, total, total + 1]))))
+    hist = []
+    for c_, n in [('s', draw(st.sampled_from([255, 256, 257, 300, total])))] + blocks:
+        hist += [c_] * n
+    return (dict(kind='long-%s' % {R.BASE: 'base', R.WITNESS_V0: 'v0', R.TAPSCRIPT: 'tapscript'}[sv], kw=dict(script=bytes(body), stack=[], flags=0, sv=sv)), hist[:1600])
+
+
+def w_long(ctx, wid, seed, examples):
+    core.hyp_campaign(ctx, 'long-walks', long_cases(), check_history, examples, seed, case_json)
+
+
 def w_random(ctx, wid, seed, examples, maxlen):
     core.hyp_campaign(ctx, 'random-walks', cases(maxlen), check_history, examples, seed, case_json)
 
@@ -212,9 +243,9 @@ def w_tree(ctx, wid, seed, nsess, depth):
 def run(tier, t0):
     W = core.WORKERS
     if tier == 'quick':
-        tasks = [(w_random, dict(examples=250, maxlen=60)) for _ in range(W)] + [(w_tree, dict(nsess=12, depth=8)) for _ in range(W)]
+        tasks = [(w_random, dict(examples=600, maxlen=60)) for _ in range(W)] + [(w_tree, dict(nsess=24, depth=8)) for _ in range(W)] + [(w_long, dict(examples=12)) for _ in range(4)]
     else:
-        tasks = [(w_random, dict(examples=15000, maxlen=400)) for _ in range(W)] + [(w_tree, dict(nsess=300, depth=10)) for _ in range(W)]
+        tasks = [(w_random, dict(examples=15000, maxlen=400)) for _ in range(W)] + [(w_tree, dict(nsess=300, depth=10)) for _ in range(W)] + [(w_long, dict(examples=400)) for _ in range(4)]
     m = core.parallel(PID, tasks)
     return core.finish(PID, tier, m, RULE, t0, min_nontrivial=300 if tier == 'quick' else 20000,
                        assumptions=['oracle is the tree itself: a fresh session advanced by the net number of accepted steps (metamorphic / model-based)',
